@@ -13,6 +13,9 @@ package ipfsproxy
 //@ ghost var rpcLastMethod string
 //@ ghost var rpcLastArg any
 //@ ghost var addN int
+// mutOK: mutating Cluster operations that were actually performed (the call returned nil)
+//@ ghost var mutOK int
+//@ spec func mutating(svc string, m string) bool = svc == "Cluster" && (m == "Pin" || m == "Unpin" || m == "PinPath" || m == "UnpinPath")
 //@ ghost var served int
 
 //@ extern http.ResponseWriter.WriteHeader(statusCode)
@@ -23,20 +26,22 @@ package ipfsproxy
 //@   modifies nothing
 
 // rpcOK counts the cluster operations that were actually performed (the call returned nil)
-//@ extern rpc.Client.Call(dest, svcName, svcMethod, args, reply)
-//@   ensures rpcN == old(rpcN) + 1 && rpcLastSvc == svcName && rpcLastMethod == svcMethod && rpcLastArg == args
+//@ extern rpc.Client.Call(dest, svcName, svcMethod, rpcArgs, reply)
+//@   ensures rpcN == old(rpcN) + 1 && rpcLastSvc == svcName && rpcLastMethod == svcMethod && rpcLastArg == rpcArgs
 //@   ensures rpcOK == old(rpcOK) + ite(err == nil, 1, 0)
-//@   modifies rpcN, rpcOK, rpcLastSvc, rpcLastMethod, rpcLastArg, *reply
+//@   ensures mutOK == old(mutOK) + ite(err == nil && mutating(svcName, svcMethod), 1, 0)
+//@   modifies rpcN, rpcOK, mutOK, rpcLastSvc, rpcLastMethod, rpcLastArg, *reply
 
-//@ extern rpc.Client.CallContext(ctx, dest, svcName, svcMethod, args, reply)
-//@   ensures rpcN == old(rpcN) + 1 && rpcLastSvc == svcName && rpcLastMethod == svcMethod && rpcLastArg == args
+//@ extern rpc.Client.CallContext(ctx, dest, svcName, svcMethod, rpcArgs, reply)
+//@   ensures rpcN == old(rpcN) + 1 && rpcLastSvc == svcName && rpcLastMethod == svcMethod && rpcLastArg == rpcArgs
 //@   ensures rpcOK == old(rpcOK) + ite(err == nil, 1, 0)
-//@   modifies rpcN, rpcOK, rpcLastSvc, rpcLastMethod, rpcLastArg, *reply
+//@   ensures mutOK == old(mutOK) + ite(err == nil && mutating(svcName, svcMethod), 1, 0)
+//@   modifies rpcN, rpcOK, mutOK, rpcLastSvc, rpcLastMethod, rpcLastArg, *reply
 
 // the add pipeline: puts blocks and pins the root (a mutating cluster operation)
 //@ extern adderutils.AddMultipartHTTPHandler(ctx, rpc, params, reader, w, outputTransform)
 //@   ensures addN == old(addN) + 1
-//@   modifies addN, httpResponses, httpLastStatus, rpcN, rpcOK, rpcLastSvc, rpcLastMethod, rpcLastArg
+//@   modifies addN, httpResponses, httpLastStatus, rpcN, rpcOK, mutOK, rpcLastSvc, rpcLastMethod, rpcLastArg
 
 // header bookkeeping only (writes to http.Header values and copies of the request); not verified
 //@ func (proxy *Server) setHeaders
@@ -59,19 +64,41 @@ package ipfsproxy
 //@   ensures [requested-mode-forwarded] rpcN == old(rpcN) + 1 ==> rpcLastArg == any(pinPath) && pinPath.Mode == ite(qget(q, "type") == "direct", api.PinModeDirect, api.PinModeRecursive)
 //@   ensures [requested-path-forwarded] rpcN == old(rpcN) + 1 ==> pinPath.Path == libfn("path.Path.String", 0, p) && p == libfn("path.ParsePath", 0, qget(q, "arg"))
 //@   ensures addN == old(addN)
-//@   modifies httpResponses, httpLastStatus, rpcN, rpcOK, rpcLastSvc, rpcLastMethod, rpcLastArg, heap(api.Pin), heap(api.PinPath)
+//@   modifies httpResponses, httpLastStatus, rpcN, rpcOK, mutOK, rpcLastSvc, rpcLastMethod, rpcLastArg, heap(api.Pin), heap(api.PinPath)
 
 //@ func (proxy *Server) pinHandler
 //@   property C12
 //@   ensures rpcN == old(rpcN) || (rpcN == old(rpcN) + 1 && rpcLastSvc == "Cluster" && rpcLastMethod == "PinPath")
 //@   ensures httpLastStatus >= 400 ==> rpcOK == old(rpcOK)
-//@   modifies httpResponses, httpLastStatus, rpcN, rpcOK, rpcLastSvc, rpcLastMethod, rpcLastArg, heap(api.Pin), heap(api.PinPath)
+//@   modifies httpResponses, httpLastStatus, rpcN, rpcOK, mutOK, rpcLastSvc, rpcLastMethod, rpcLastArg, heap(api.Pin), heap(api.PinPath)
 
 //@ func (proxy *Server) unpinHandler
 //@   property C12
 //@   ensures rpcN == old(rpcN) || (rpcN == old(rpcN) + 1 && rpcLastSvc == "Cluster" && rpcLastMethod == "UnpinPath")
 //@   ensures httpLastStatus >= 400 ==> rpcOK == old(rpcOK)
-//@   modifies httpResponses, httpLastStatus, rpcN, rpcOK, rpcLastSvc, rpcLastMethod, rpcLastArg, heap(api.Pin), heap(api.PinPath)
+//@   modifies httpResponses, httpLastStatus, rpcN, rpcOK, mutOK, rpcLastSvc, rpcLastMethod, rpcLastArg, heap(api.Pin), heap(api.PinPath)
+
+// pin update: resolve the source, pin the destination as an update of it, then (unless unpin=false) unpin the source
+//@ func (proxy *Server) pinUpdateHandler
+//@   property C12
+//@   ensures [one-response] httpResponses == old(httpResponses) + 1
+//@   ensures [missing-argument-is-400-and-nothing-done] len(args) < 2 ==> httpLastStatus == 400 && rpcN == old(rpcN)
+//@   at_call rpc.Client.Call assert [pins-the-destination-as-update-of-the-source] svcName == "Cluster" && svcMethod == "PinPath" && rpcArgs == any(pinPath) && pinPath.PinUpdate == fromCid && pinPath.Path == libfn("path.Path.String", 0, pTo)
+//@   at_call rpc.Client.CallContext assert [resolve-then-unpin-the-source] (svcName == "IPFSConnector" && svcMethod == "Resolve" && rpcN == old(rpcN)) || (svcName == "Cluster" && svcMethod == "Unpin" && unpin && mutOK == old(mutOK) + 1)
+//@   ensures [unpin-false-keeps-the-source] qget(q, "unpin") == "false" && len(args) >= 2 ==> mutOK <= old(mutOK) + 1
+//@   ensures [ok-means-done] httpLastStatus < 400 ==> mutOK == old(mutOK) + ite(unpin, 2, 1)
+//@   ensures [error-means-nothing-done] httpLastStatus >= 400 ==> mutOK == old(mutOK)
+//@   ensures addN == old(addN)
+//@   modifies httpResponses, httpLastStatus, rpcN, rpcOK, mutOK, rpcLastSvc, rpcLastMethod, rpcLastArg, heap(api.Pin), heap(api.PinPath), heap(cid.Cid)
+
+// pin ls: read-only
+//@ func (proxy *Server) pinLsHandler
+//@   property C12
+//@   ensures [one-response] httpResponses == old(httpResponses) + 1
+//@   ensures [read-only] mutOK == old(mutOK) && addN == old(addN)
+//@   loop 1 (range pins)
+//@     invariant mutOK == old(mutOK) && addN == old(addN) && httpResponses == old(httpResponses)
+//@   modifies httpResponses, httpLastStatus, rpcN, rpcOK, rpcLastSvc, rpcLastMethod, rpcLastArg, heap(api.Pin)
 
 // add: an option the proxy refuses (only-hash) or cannot parse is answered with an error and nothing is added
 //@ func (proxy *Server) addHandler
@@ -79,12 +106,12 @@ package ipfsproxy
 //@   ensures [only-hash-refused] qget(q, "only-hash") == "true" ==> addN == old(addN) && rpcOK == old(rpcOK)
 //@   ensures [bad-options-refused] params == nil ==> addN == old(addN)
 //@   ensures [at-most-one-add] addN == old(addN) || addN == old(addN) + 1
-//@   modifies httpResponses, httpLastStatus, rpcN, rpcOK, rpcLastSvc, rpcLastMethod, rpcLastArg, addN, heap(api.Pin), heap(api.AddParams)
+//@   modifies httpResponses, httpLastStatus, rpcN, rpcOK, mutOK, rpcLastSvc, rpcLastMethod, rpcLastArg, addN, heap(api.Pin), heap(api.AddParams)
 
 // the {arg} path style: the inner handler sees ?arg=<path argument> and the rest of the query unchanged
 //@ fnvalue slashHandler.origHandler(w, r)
 //@   ensures served == old(served) + 1
-//@   modifies served, httpResponses, httpLastStatus, rpcN, rpcOK, rpcLastSvc, rpcLastMethod, rpcLastArg, addN
+//@   modifies served, httpResponses, httpLastStatus, rpcN, rpcOK, mutOK, rpcLastSvc, rpcLastMethod, rpcLastArg, addN
 
 //@ closure slashHandler#1
 //@   property C12
@@ -92,7 +119,7 @@ package ipfsproxy
 //@   ensures [arg-set] qget(q, "arg") == libfn("mux.Vars", 0, r)["arg"]
 //@   ensures [rest-of-query-kept] forall k string :: k != "arg" ==> (haskey(q, k) <==> haskey(libfn("url.URL.Query", 0, old(r.URL)), k)) && q[k] == libfn("url.URL.Query", 0, old(r.URL))[k]
 //@   ensures [query-rewritten] r.URL.RawQuery == libfn("url.Values.Encode", 0, q)
-//@   modifies served, httpResponses, httpLastStatus, rpcN, rpcOK, rpcLastSvc, rpcLastMethod, rpcLastArg, addN, heap(url.URL)
+//@   modifies served, httpResponses, httpLastStatus, rpcN, rpcOK, mutOK, rpcLastSvc, rpcLastMethod, rpcLastArg, addN, heap(url.URL)
 
 // ---- "a hijacked request never reaches the daemon as the mutating call it replaces" ----
 // the only requests the hijack path itself sends to the daemon: an OPTIONS pre-flight to the same path
